@@ -538,6 +538,12 @@ def vtkMetaSpec (endian : Str) (spacing : Str × Str × Str) (img : Image α) : 
       fun p => { name := p.1, type := "Float64".toList, format := "appended".toList, offset := p.2 },
     encoding := "raw".toList }
 
+/-- the reader above decodes the five predefined entities and nothing else: a header in which some
+`&` starts anything else (a character reference such as `&#38;`) is outside the subset it reads -/
+def entitiesKnown : Str → Bool
+  | [] => true
+  | c :: r => (if c = '&' then (entityAt r).isSome else true) && entitiesKnown r
+
 /-- decidable form of the hypothesis `HeadOk` of the header theorems -/
 def headOkB (endian : Str) (spacing : Str × Str × Str) (names : List Str) : Bool :=
   endian.all (fun c => c ≠ '"' && c ≠ '&' && c ≠ '\n') &&
